@@ -220,9 +220,16 @@ start:
 			if b.ret.neg {
 				c = Not(c)
 			}
-			b.branch(b.ret.then, c)
-			b.branch(b.ret.els, Not(c))
-			b.cur = nil
+			switch c.Op {
+			case OpTrue: // `return true`: only one way on
+				b.jump(b.ret.then)
+			case OpFalse:
+				b.jump(b.ret.els)
+			default:
+				b.branch(b.ret.then, c)
+				b.branch(b.ret.els, Not(c))
+				b.cur = nil
+			}
 			return
 		}
 		if b.ret != nil {
